@@ -12,7 +12,6 @@ package balenum
 import (
 	"fmt"
 	"os"
-	"runtime"
 	"runtime/debug"
 	"sort"
 	"strings"
@@ -66,29 +65,21 @@ var defaultIDs = []string{"m0", "m1", "m2", "m3", "m4", "m5", "m6", "m7"}
 var defaultInstanceIDs = []string{"i9", "i8", "i7", "i6", "i5", "i4", "i3", "i2"}
 
 // TuneGC trades memory for speed: the checks allocate many tiny short-lived
-// objects (encoded metadata, plans) on top of a static live heap (the block
-// list), so collect only when the heap has grown by limit bytes over what is
-// live now. Call it after the static data has been built.
-func TuneGC(limit int64) {
-	runtime.GC()
-	var ms runtime.MemStats
-	runtime.ReadMemStats(&ms)
-	limit += int64(ms.HeapAlloc) + int64(ms.HeapAlloc)/4
-	if v := os.Getenv("BALENUM_GC_LIMIT"); v != "" {
-		fmt.Sscan(v, &limit)
-		if limit <= 0 {
-			return
-		}
+// objects (encoded metadata, plans). A never-touched ballast of n bytes makes
+// the collector run only after about n bytes (plus the live heap) of new
+// allocation, without the thrashing a hard memory limit causes once the live
+// heap (block lists, hash sets) grows.
+func TuneGC(n int64) {
+	if v := os.Getenv("BALENUM_GC_BALLAST"); v != "" {
+		fmt.Sscan(v, &n)
 	}
-	if v := os.Getenv("BALENUM_GOGC"); v != "" {
-		var pct int
-		fmt.Sscan(v, &pct)
-		debug.SetGCPercent(pct)
-		return
+	if n > 0 {
+		gcBallast = make([]byte, n)
 	}
-	debug.SetGCPercent(-1)
-	debug.SetMemoryLimit(limit)
+	debug.SetGCPercent(100)
 }
+
+var gcBallast []byte
 
 // InstanceID returns the static instance ID of member i ("" = dynamic).
 // With Static the instance IDs sort in the reverse order of the member IDs.
